@@ -104,12 +104,12 @@ static void run_case(hctx* h, fcase* fc) {
     for (int i = 0; i < nst; i++) { fprintf(h->out, "%s%d", i ? "," : "", st[i]); if (st[i] != 0) all_ok = 0; }
     fprintf(h->out, " file="); h_hex(h->out, fb, fn);
     /* expected table: row groups = maximal runs of batches between rg steps, only those that exist in the file */
-    int nrg_exp = 0; echunk exp[16][MAXC]; memset(exp, 0, sizeof exp);
+    int nrg_exp = 0; static echunk exp[20][MAXC]; memset(exp, 0, sizeof exp);
     { int open = 0;
       for (int i = 0; i < fc->nsteps; i++) {
           fstep* s = &fc->steps[i];
           if (s->kind == 1) { if (open) { nrg_exp++; open = 0; } continue; }
-          open = 1; if (nrg_exp < 16) ech_add(&exp[nrg_exp][s->col], s);
+          open = 1; if (nrg_exp < 20) ech_add(&exp[nrg_exp][s->col], s);
       }
       if (open) nrg_exp++; }
     int roundtrip = 1, modes = 1;
@@ -126,7 +126,7 @@ static void run_case(hctx* h, fcase* fc) {
             fprintf(h->out, " nrg=%d rows=%lld ncol=%d", nrg, (long long)carquet_reader_num_rows(rd), carquet_reader_num_columns(rd));
             /* expected: non-empty row groups only are compared by content; the file may hold empty ones */
             int e = 0;
-            for (int g = 0; g < nrg && g < 16; g++) {
+            for (int g = 0; g < nrg && g < 20; g++) {
                 for (int c = 0; c < fc->ncols; c++) {
                     char* got = read_chunk(rd, &fc->cols[c], g, c);
                     fprintf(h->out, " r%d_%d=%s", g, c, got);
@@ -148,7 +148,7 @@ static void run_case(hctx* h, fcase* fc) {
     }
     fputc('\n', h->out);
     h->n_lines++;
-    for (int g = 0; g < 16; g++) for (int c = 0; c < MAXC; c++) { free(exp[g][c].defs); free(exp[g][c].vals); free(exp[g][c].vlen); }
+    for (int g = 0; g < 20; g++) for (int c = 0; c < MAXC; c++) { free(exp[g][c].defs); free(exp[g][c].vals); free(exp[g][c].vlen); }
     free(fb); free(fb2);
     unlink(path); unlink(path2);
 }
